@@ -5,7 +5,7 @@
 //! (timeSource), 14.1.1 Table 52 (tlvType), Table 36 (messageType).
 #![allow(dead_code, unused_imports, missing_docs)]
 use super::*;
-use crate::datastructures::common::{ClockAccuracy, ClockIdentity, ClockQuality, TimeSource, TlvType};
+use crate::datastructures::common::{ClockAccuracy, ClockIdentity, ClockQuality, TimeSource, TlvSet, TlvType};
 use crate::verif_gen::*;
 
 // ------------------------------------------------------------------------------------------ spec
@@ -301,3 +301,73 @@ fn c04_body_signaling_management_self_consistent() {
     kani::assume(k2 < 14);
     assert!(MessageBody::deserialize(MessageType::Management, &h, &b[..k2]).is_err());
 }
+
+
+// ------------------------------------------------------------------------------------------ framing (encode side)
+/// `Message::serialize` glue: header at 0..34 with messageLength = wire_size, body at 34.., TLV suffix after it;
+/// returns wire_size; the bytes are what the header / body serializers write (whose Clause-13 conformance is
+/// proved by the harnesses above). Checked for every header, every fixed-size body type, empty suffix.
+#[kani::proof]
+#[kani::unwind(40)]
+fn c04_message_serialize_layout() {
+    let h = any_header();
+    let kind: u8 = kani::any();
+    kani::assume(kind < 4);
+    let body = match kind {
+        0 => MessageBody::Sync(SyncMessage { origin_timestamp: any_wire_timestamp() }),
+        1 => MessageBody::DelayResp(DelayRespMessage { receive_timestamp: any_wire_timestamp(), requesting_port_identity: any_port_identity() }),
+        2 => MessageBody::PDelayReq(PDelayReqMessage { origin_timestamp: any_wire_timestamp() }),
+        _ => MessageBody::FollowUp(FollowUpMessage { precise_origin_timestamp: any_wire_timestamp() }),
+    };
+    let t = body.content_type();
+    let size = body.wire_size();
+    let m = Message { header: h, body: body.clone(), suffix: TlvSet::default() };
+    let mut out = [0xa5u8; 64];
+    let n = m.serialize(&mut out).unwrap();
+    assert!(n == 34 + size && n == m.wire_size());
+    // header part == serialize_header(type, content length)
+    let mut hdr = [0u8; 34];
+    h.serialize_header(t, size, &mut hdr).unwrap();
+    assert!(out[..34] == hdr[..]);
+    assert!(be16(&out, 2) as usize == n);
+    // body part == body serializer
+    let mut b = [0u8; 20];
+    body.serialize(&mut b[..size]).unwrap();
+    assert!(out[34..34 + size] == b[..size]);
+    // nothing after the message is touched
+    assert!(out[34 + size] == 0xa5 || 34 + size == 64);
+    // and the library's own parser reads it back
+    let back = Message::deserialize(&out[..n]).unwrap();
+    assert!(back.header == h && back.body == body && back.suffix.wire_size() == 0);
+}
+
+// ------------------------------------------------------------------------------------------ recording stub
+// Port-level harnesses replace `Message::serialize` by its contract: "returns wire_size" -- and record the
+// message handed to it, so emitted frames are compared with the specification as *messages*; that the bytes of
+// a message are the Clause-13 encoding is the C04 obligation above (reading 64 octets back out of the port's
+// packet buffer after ~50 conditional writes sends CBMC's simplifier into an exponential blow-up).
+pub(crate) static mut LAST_SERIALIZED: Option<(Header, MessageBody, usize)> = None;
+pub(crate) static mut N_SERIALIZED: u32 = 0;
+impl<'a> Message<'a> {
+    pub(crate) fn verif_recording_serialize(&self, buffer: &mut [u8]) -> Result<usize, super::WireFormatError> {
+        // precondition of the real serializer: the buffer holds the message
+        assert!(buffer.len() >= self.wire_size());
+        unsafe {
+            LAST_SERIALIZED = Some((self.header, self.body.clone(), self.suffix.wire_size()));
+            N_SERIALIZED = N_SERIALIZED.wrapping_add(1);
+        }
+        Ok(self.wire_size())
+    }
+}
+#[allow(static_mut_refs)]
+pub(crate) fn last_serialized() -> (Header, MessageBody, usize) {
+    unsafe {
+        assert!(N_SERIALIZED == 1);
+        LAST_SERIALIZED.clone().unwrap()
+    }
+}
+pub(crate) fn reset_serialized() {
+    unsafe { LAST_SERIALIZED = None; N_SERIALIZED = 0; }
+}
+#[allow(static_mut_refs)]
+pub(crate) fn n_serialized() -> u32 { unsafe { N_SERIALIZED } }
